@@ -119,6 +119,32 @@ def systematic():
                 yield h
 
 
+PATHS_M = [[], ["resolutions"], ["resolutions", "2"], ["resolutions", "7"]]
+
+
+def mcool_cases():
+    """The file that receives the new collection is a MULTI-RESOLUTION file (root format attribute HDF5::MCOOL, a level under
+    /resolutions) and the destination is a new level: a failed level must not be listed either."""
+    base = [[[0, 0, 1], [0, 1, 2]], [[0, 2, 1]], [[1, 1, 3], [2, 2, 1]]]
+    n, symm = 3, True
+    ok = {"kind": "none", "at": 0}
+    pre = [{"dest": ["resolutions", "2"], "mode": "a", "n": n, "symm": symm, "chunks": [[[0, 1, 5]], [[1, 2, 7]]], "fault": ok,
+            "noslash": False, "explicit_root": True}]
+    dest = ["resolutions", "7"]
+    faults = [{"kind": "iter_raise", "at": k} for k in range(len(base) + 1)] + \
+             [{"kind": fk, "at": 0} for fk in ("crash_indexes", "crash_info", "crash_tables", "bad_metadata", "none")] + \
+             [{"kind": "kill", "at": at} for at in range(1, len(base) + 5)]
+    for fault in faults:
+        chunks = base[:fault["at"]] if fault["kind"] == "iter_raise" else base
+        yield pre + [{"dest": dest, "mode": "a", "n": n, "symm": symm, "chunks": chunks, "fault": fault, "noslash": False,
+                      "explicit_root": True, "mark_mcool": True}]
+    for k in range(len(base)):
+        for kind in ("neg", "excess", "tril", "dup"):
+            ch = inject(base, k, kind, 0, n, symm)[:k + 1]
+            yield pre + [{"dest": dest, "mode": "a", "n": n, "symm": symm, "chunks": ch, "fault": {"kind": "invalid", "at": k, "what": kind},
+                          "noslash": False, "explicit_root": True, "mark_mcool": True}]
+
+
 def tlc_behaviours(tier, seed):
     """spec -> code: behaviours of the stepwise-writer model generated by TLC's random simulation (MC_CreateSim)."""
     import json
@@ -168,6 +194,8 @@ def cases(tier, seed):
         yield "cr.steps", {"paths": PATHS, "calls": calls, "source": "tlc-simulate"}
     for calls in systematic():
         yield "cr.steps", {"paths": PATHS, "calls": calls}
+    for calls in mcool_cases():
+        yield "cr.steps", {"paths": PATHS_M, "calls": calls}
     for _ in range(400 if tier == "quick" else 8000):
         yield "cr.steps", {"paths": PATHS, "calls": calls_for(rng, tier)}
     # other producers writing into a multi-collection file
